@@ -17,6 +17,8 @@ class Fn:
                         R21 = `for P in &E {` -> `for P in E.iter() {`; R22 = `let P = E.iter().position(|X| {B});` -> index loop;
                         R23 = ghost token: `fn.ghost_token = dict(param=, arg=, callees=[..])` appended to the signature and to
                         every `.callee(..)` call (extract.r21_* / r22_* / r23_*)
+                        R24 = `if C { B }` without else -> `if C { B } else { }` (extract.r24_explicit_else; works around a Verus
+                        mis-resolution of `&mut`-holding values moved in an else-less if)
     """
     rules = ()
 
@@ -88,6 +90,7 @@ class Group:
 
 
 class Unit:
+    prelude_subst = ()     # opt-in: (old, new) literal substitutions applied to the prelude texts for this unit only (e.g. to replace a model type by a variant)
     cfg_features = ()      # opt-in: features evaluated as ON in #[cfg(feature = ..)] for this unit only (`unit.cfg_features = {'async-io'}`)
 
     def __init__(self, name, items, preludes=(), generic_tags=None, file_attrs=(), notes=''):
